@@ -8,11 +8,12 @@
 set -u
 cd "$(dirname "$0")"
 . ./env.sh
-mkdir -p .work .bin evidence/parts replays
+OUT=${VERIF_OUT:-$PWD}; SUF=${VERIF_BIN_SUFFIX:+.$VERIF_BIN_SUFFIX}
+mkdir -p .work .bin "$OUT/evidence/parts" "$OUT/replays"
 
 build() { # build <cmd> <race:0|1>
-  local cmd=$1 race=$2 out=.bin/$1 flags=()
-  [ "$race" = 1 ] && { flags+=(-race); out=.bin/$1.race; }
+  local cmd=$1 race=$2 out=.bin/$1$SUF flags=()
+  [ "$race" = 1 ] && { flags+=(-race); out=.bin/$1$SUF.race; }
   (
     flock 9
     if [ -x tools/seamgen.sh ]; then ./tools/seamgen.sh >/dev/null || exit 2; fi
@@ -31,11 +32,11 @@ fi
 id=${1:?property id}; tier=${2:-${VERIF_TIER:-quick}}
 parts=$(python3 tools/parts.py list "$id")
 [ -n "$parts" ] || { echo "unknown property $id" >&2; exit 2; }
-rm -f "evidence/$id.json" evidence/parts/"$id".*.json
+rm -f "$OUT/evidence/$id.json" "$OUT"/evidence/parts/"$id".*.json
 rc=0
 while IFS=$'\t' read -r cmd part race args; do
   build "$cmd" "$race" || { echo "INTERNAL: build of $cmd failed" >&2; exit 2; }
-  bin=.bin/$cmd; [ "$race" = 1 ] && bin=.bin/$cmd.race
+  bin=.bin/$cmd$SUF; [ "$race" = 1 ] && bin=.bin/$cmd$SUF.race
   VERIF_TIER=$tier VERIF_PART=$part VERIF_BIN="$PWD/$bin" "$bin" "$id" "$tier" $args
   r=$?
   if [ $r -eq 1 ]; then rc=1; elif [ $r -ne 0 ]; then echo "INTERNAL: $cmd ($part) exited $r" >&2; exit 2; fi
